@@ -36,14 +36,14 @@ ASSUMPTIONS = [
 ]
 FLOORS = {"programs:failing-serialization": 0.1, "programs:failing-deserialization": 0.2}
 
-O_SKIP, O_SORT, O_EXPL, O_TEST, O_INDEX, O_DIALECT = 1, 2, 4, 8, 16, 32
+O_SKIP, O_SORT, O_EXPL, O_TEST, O_INDEX, O_DIALECT, O_OMIT = 1, 2, 4, 8, 16, 32, 64
 FMTS = ["dict", "json", "msgpack", "yaml"]
 
 
 def _dialect():
     from mashumaro.dialect import Dialect
 
-    global _SHIFT
+    global _SHIFT, _OMIT
     try:
         return _SHIFT
     except NameError:
@@ -52,8 +52,17 @@ def _dialect():
     class Shift(Dialect):
         serialization_strategy = {int: {"serialize": lambda x: x + 1000, "deserialize": lambda x: x - 1000}}  # noqa: RUF012
 
+    class OmitNone(Dialect):
+        omit_none = True
+
     _SHIFT = Shift
+    _OMIT = OmitNone
     return Shift
+
+
+def _omit_dialect():
+    _dialect()
+    return _OMIT
 
 
 def options(mask: int) -> tuple[dict | None, Any]:
@@ -72,13 +81,15 @@ def options(mask: int) -> tuple[dict | None, Any]:
         o["ast_serialize_dialect"] = ASTSerializationDialects.AST_TEST
     if mask & O_INDEX:
         o[SOURCE_OPTIMIZED_SERIALIZATION_KEY] = True
-    return (o or None), (_dialect() if mask & O_DIALECT else None)
+    return (o or None), (_dialect() if mask & O_DIALECT else (_omit_dialect() if mask & O_OMIT else None))
 
 
 # --------------------------------------------------------------------- reference serializer
 
 
 def _finish(cls_name: str, d: dict, mask: int) -> dict:
+    if mask & O_OMIT and not mask & O_DIALECT:
+        d = {k: v for k, v in d.items() if v is not None}  # mashumaro's omit_none, at every level
     out: dict = {}
     if not mask & O_SKIP:
         out["__type"] = cls_name
@@ -320,7 +331,7 @@ def check_program(data: dict, lab: Labels) -> None:
             node = trees[ti % len(trees)]
             fmt = FMTS[fi % 4]
             if fmt in ("json", "msgpack"):
-                mask &= ~O_DIALECT  # mashumaro dialects are not supported by these front-ends
+                mask &= ~(O_DIALECT | O_OMIT)  # mashumaro dialects are not supported by these front-ends
             opts, dialect = options(mask)
             state["optioned"] = state["optioned"] or bool(mask)
         if kind == "ser":
@@ -423,7 +434,8 @@ def st_program(ctx: Ctx):
     g = T.TreeGen(leaves=ctx.pick(6, 9), origin_rate=0.5, servals=True, frozensets=False, bombs=True,
                   falsy=False, wide=False)
     small = st.integers(0, 40)
-    mask = st.one_of(st.integers(0, 63), st.sampled_from([O_SKIP, O_SORT, O_EXPL, O_TEST, O_INDEX, O_DIALECT, 0, O_SORT | O_SKIP]))
+    mask = st.one_of(st.integers(0, 127), st.sampled_from([O_SKIP, O_SORT, O_EXPL, O_TEST, O_INDEX, O_DIALECT, 0, O_SORT | O_SKIP,
+                                                            O_OMIT | O_SORT, O_OMIT, O_SORT]))
     ser = st.tuples(st.just("ser"), small, st.integers(0, 3), mask, st.sampled_from([1, 0, 0]), small).map(list)
     de = st.tuples(st.just("de"), small, st.integers(0, 3), mask, st.sampled_from([1, 2, 3, 4, 0, 0]), small).map(list)
     other = st.one_of(st.tuples(st.just("all_as_dict"), st.booleans()).map(list), st.just(["load_sources"]))
